@@ -1,6 +1,7 @@
 import Amgcl.Model.Deflation
 import Amgcl.Properties.C07
 import Amgcl.Proofs.RowGet
+import Amgcl.Proofs.InverseMatrix
 import Mathlib.Tactic.Ring
 import Mathlib.Algebra.BigOperators.Group.Finset.Sigma
 /-!
@@ -396,5 +397,37 @@ theorem project_fixed (nt : Nat) (hnt : 0 < nt) (A : CRS K) (n : Nat) (hn : A.nr
   rw [this, add_zero]
 
 end fixed
+
+end Amgcl.Deflation
+
+namespace Amgcl.Deflation
+open Amgcl Finset
+
+section inv
+variable {K : Type} [Field K] [LinearOrder K] [IsStrictOrderedRing K]
+
+theorem mkE_size (A : CRS K) (Z : Array (Vec K)) : (mkE A Z).size = Z.size * Z.size := by
+  unfold mkE
+  have := mkE_fold A Z A.nrows
+  simp only at this ⊢
+  rw [this]; simp
+
+/-- what `init` stores: for a non-singular `E = Zᵀ A Z` the result of `detail::inverse` is a right inverse (C16) -/
+theorem init_right_inv (A : CRS K) (Z : Array (Vec K)) (st : State K) (hst : init A Z = some st)
+    (hdet : (matOf Z.size (mkE A Z)).det ≠ 0) :
+    st.A = A ∧ st.Z = Z ∧ ∀ k j, k < Z.size → j < Z.size →
+      ∑ i ∈ range Z.size, (mkE A Z).getD (k * Z.size + i) 0 * st.Einv.getD (i * Z.size + j) 0
+        = if k = j then 1 else 0 := by
+  unfold init at hst
+  simp only at hst
+  split at hst
+  · cases hst
+  · simp only [Option.some.injEq] at hst
+    subst hst
+    refine ⟨rfl, rfl, ?_⟩
+    intro k j hk hj
+    exact inverse_right_inv (mkE A Z) _ _ (mkE_size A Z) (by simp) (by simp) (nonsing_of_det _ _ hdet) k j hk hj
+
+end inv
 
 end Amgcl.Deflation
